@@ -11,11 +11,16 @@ from harness.common import registry as R, tcorr, oracles
 
 PROPERTY = 'C19'
 LEVEL = 'other'
-REQUIRED_THEOREMS = ['Properties.C19.result_dtype_eq_input', 'Properties.C19.promote_assoc', 'Properties.C19.fresh_constant_counterexample']
+REQUIRED_THEOREMS = ['Properties.C19.' + n for n in ('result_dtype_eq_input', 'promote_assoc', 'fresh_constant_counterexample',
+    'dot_two_precisions', 'dot_two_precisions_gamma', 'linear_two_precisions', 'affine_two_precisions', 'affine_inverse_two_precisions',
+    'affine_chain_two_precisions', 'composite_error', 'sum_log_error', 'leaky_relu_error', 'exp_error', 'exact_is_u_zero', 'two_precisions_example')]
 RULE = ("registry x regimes (fresh, normal: moderate magnitudes) x both directions: float32 implementation vs Float32 model, float64 twin vs Float model, "
         "float32 vs float64 implementation (tolerance 64*2^-24*(1+|v|)*exp(|logabsdet|)), result dtypes; distinct = (entry, regime, direction); non-trivial = not the identity")
-EXPLANATION = ("dtype-propagation theorem on a promotion-lattice model (Properties.C19); the numeric clause is NOT a theorem (Float32 is opaque to the kernel; no verified rounding "
-               "analysis): it is decided by executing the same Lean definitions in Float32 and Float against the float32 implementation and its float64 twin")
+EXPLANATION = ("dtype-propagation theorem on a promotion-lattice model (Properties.C19); numeric clause: theorems in the standard model of floating-point arithmetic "
+               "(every primitive of the EXECUTED program followed by a rounding with relative error <= u; IEEE conformance of torch's kernels trusted, no overflow/underflow) "
+               "for the inner product / F.linear / point-wise affine element and chains of them / LeakyReLU / Exp / log-det sums: the two precisions differ by at most the two "
+               "rounding budgets times the conditioning scale (sum |x_i||w_i|); for everything else (splines, branches on rounded constants, finiteness) the clause is decided by "
+               "executing the same Lean definitions in Float32 and Float against the float32 implementation and its float64 twin")
 ASSUMPTIONS = ["moderate magnitudes: parameters fresh or N(0, 0.5)-perturbed, inputs N(0, 2) / uniform in the box", "UMNN transforms only via the search oracle"]
 
 U32 = 2.0 ** -24
